@@ -674,8 +674,8 @@ func (c *Compiler) writeNode(node, parent *node, recv, v, vsrc string, depth int
 	if requireLenCheck {
 		c.wl("if len(path) > ", depths, " {")
 	}
-	if node.ptr {
-		// Value may be nil on pointer types.
+	if node.ptr && !(mode == modeCmp && node.typ == typeBasic) {
+		// Value may be nil on pointer types (writeCmp checks basic types itself, after the "nil" operand).
 		c.wl("if ", v, " == nil { ", c.fmtR(mode, "nil"), " }")
 	}
 
